@@ -747,6 +747,7 @@ int cif_parse_internal(struct scanner_s *scanner, int not_utf8, const char *extr
     scanner->buffer = (UChar *) malloc(BUF_SIZE_INITIAL * sizeof(UChar));
     scanner->buffer_size = BUF_SIZE_INITIAL;
     scanner->buffer_limit = 0;
+    scanner->cr_pending = CIF_FALSE;
 
     if (scanner->buffer == NULL) {
         SET_RESULT(CIF_MEMORY_ERROR);
@@ -3186,9 +3187,26 @@ static int get_more_chars(struct scanner_s *scanner) {
         scanner->buffer_limit = current_chars;
     } /* else just append to the currently buffered data */
 
-    /* once EOF has been detected, don't attempt to read from the character source any more */
-    nread = scanner->at_eof ? 0 : scanner->read_func(scanner->char_source, scanner->buffer + scanner->buffer_limit,
-                scanner->buffer_size - scanner->buffer_limit, &read_error);
+    for (;;) {
+        UChar *start = scanner->buffer + scanner->buffer_limit;
+
+        /* once EOF has been detected, don't attempt to read from the character source any more */
+        nread = scanner->at_eof ? 0 : scanner->read_func(scanner->char_source, start,
+                    scanner->buffer_size - scanner->buffer_limit, &read_error);
+
+        if ((nread > 0) && scanner->cr_pending) {
+            /* the previous fill ended with a CR; a leading LF here completes a CR LF pair, and is dropped */
+            scanner->cr_pending = CIF_FALSE;
+            if (*start == UCHAR_NL) {
+                nread -= 1;
+                if (nread == 0) {
+                    continue;  /* nothing else was obtained; try again */
+                }
+                u_memmove(start, start + 1, nread);
+            }
+        }
+        break;
+    }
 
     if (nread < 0) {
         return read_error;
@@ -3201,6 +3219,8 @@ static int get_more_chars(struct scanner_s *scanner) {
         UChar *bound = lead + nread;
         UChar *trail;
         UChar *dest;
+
+        scanner->cr_pending = (*(bound - 1) == UCHAR_CR);
 
         do {
             lead = u_memchr(lead, UCHAR_CR, bound - lead);
